@@ -804,15 +804,16 @@ func ruleGR6(c *Ctx) *rule {
 	type st struct {
 		b, prev *ssa.BasicBlock
 		n       int
+		as      string
 	}
 	seen := map[st]bool{}
 	bad := ""
-	var dfs func(b, prev *ssa.BasicBlock, n int)
-	dfs = func(b, prev *ssa.BasicBlock, n int) {
+	var dfs func(b, prev *ssa.BasicBlock, n int, assume map[string]bool)
+	dfs = func(b, prev *ssa.BasicBlock, n int, assume map[string]bool) {
 		if bad != "" {
 			return
 		}
-		s := st{b, prev, n}
+		s := st{b, prev, n, assumeKey(assume)}
 		if seen[s] {
 			return
 		}
@@ -829,7 +830,8 @@ func ruleGR6(c *Ctx) *rule {
 			n = 2
 		}
 		for i, nx := range b.Succs {
-			if _, _, feasible := branchCond(b, prev, i); !feasible {
+			as, ok := stepAssume(assume, b, prev, i)
+			if !ok {
 				continue
 			}
 			if nx == rl.loop.header && rl.loop.body[b] {
@@ -841,14 +843,12 @@ func ruleGR6(c *Ctx) *rule {
 			if !rl.loop.body[nx] {
 				continue
 			}
-			dfs(nx, b, n)
+			dfs(nx, b, n, as)
 		}
 	}
-	// K events located on phi edges are attributed to the predecessor block; handle header start
-	for i, nx := range rl.loop.header.Succs {
-		_ = i
+	for _, nx := range rl.loop.header.Succs {
 		if rl.loop.body[nx] {
-			dfs(nx, rl.loop.header, 0)
+			dfs(nx, rl.loop.header, 0, map[string]bool{})
 		}
 	}
 	if bad == "" {
@@ -1001,6 +1001,6 @@ func graphProperties() []*propertySpec {
 			Explanation: "Static analysis of the graph builder and the run loop: GR1 proves the dependency discovery has feedback (a reader of Task.TaskDependencies reachable from SpokFile.Run is on a call-graph cycle or in a work-list loop), which is necessary for visiting every graph shape; GR2 proves the direction of every AddEdge by slicing its arguments; GR3 proves every use of the Sort result is dominated by len(order) == graph.Order() with an erroring mismatch edge (the library's Kahn sort silently truncates on cycles); GR4/GR5 prove by edge-dominance that undefined names and duplicate definitions end in errors and that every vertex payload comes from a checked lookup; GR6 proves the run loop visits the unmodified Sort result front to back with exactly one run/skip event and one appended result per iteration; GR7 that vertex ids derive from both the request list and TaskDependencies and library errors are propagated.",
 			NotCovered:  []string{"correctness of Kahn's algorithm in collections/dag", "what still runs after a command failure beyond the per-iteration discipline of GR6"},
 			Assumptions: []string{"collections/dag v0.10.0: Sort returns each vertex at most once, dependencies first for the acyclic part, and a truncated order with nil error when a cycle coexists with a zero in-degree vertex; AddVertex errors on duplicates; AddEdge errors on unknown ids"},
-			Rules:       []func(*Ctx) *rule{ruleGR1, ruleGR2, ruleGR3, ruleGR4, ruleGR5, ruleGR6, ruleGR7}},
+			Rules:       []func(*Ctx) *rule{ruleGR1, ruleGR2, ruleGR3, ruleGR4, ruleGR5, ruleGR6, ruleGR7, ruleGR8, ruleST7}},
 	}
 }
